@@ -543,7 +543,7 @@ pub fn replay(part: &str, case: serde_json::Value) -> Option<CaseResult> {
 pub fn meta() -> EvidenceMeta {
     EvidenceMeta {
         level: "exploration",
-        rule: "cases = trigger (size with limit 0-4000, on-start-up, time driven through the guarded clock, user-defined scripted trigger with generated answers and pre/post-processing) x roller (delete; fixed window with base in {0,1,7,u32::MAX-count}, count 0-5, plain/.gz/.zst, index in file name or directory) x pattern or multi-chunk encoder x history of 1-40 operations: appends of self-delimiting records (payload 0-3 KiB incl. newlines and multi-byte text), restarts on the same path (append mode), clock advances, concurrent bursts of 2-5 threads; oracle after every operation: every retained file parses into whole uncorrupted records; archives oldest-to-newest then the active file yield a gap-free suffix of the acknowledged stream (bursts: per-thread suffixes in order, no duplicates, nothing invented, earlier records first); records disappear only when the retention window was full (or delete/count 0); append returns Err only for the scripted failures of a user-defined roller wrapped around the real one (file left in place; earlier acknowledged records must survive, also in truncate mode). Part handover: an old and a new appender instance on the same path (what a reloaded configuration produces while loggers in flight still hold the old one) write alternately; after every acknowledged append the file is exactly all acknowledged records, whole and in order. non-trivial = >= 2 rotations and (a restart between them, or a record larger than the limit or 1 KiB, or a burst)".into(),
+        rule: "cases = trigger (size with limit 0-4000, on-start-up, time driven through the guarded clock, user-defined scripted trigger with generated answers and pre/post-processing) x roller (delete; fixed window with base in {0,1,7,u32::MAX-count}, count 0-5, plain/.gz/.zst, index in file name or directory) x pattern or multi-chunk encoder x history of 1-40 operations: appends of self-delimiting records (payload 0-3 KiB incl. newlines and multi-byte text), restarts on the same path (append mode), clock advances, concurrent bursts of 2-5 threads; oracle after every operation: every retained file parses into whole uncorrupted records; archives oldest-to-newest then the active file yield a gap-free suffix of the acknowledged stream (bursts: per-thread suffixes in order, no duplicates, nothing invented, earlier records first); records disappear only when the retention window was full (or delete/count 0); append returns Err only for the scripted failures of a user-defined roller wrapped around the real one (file left in place; earlier acknowledged records must survive, also in truncate mode). Part handover: an old and a new appender instance on the same path (what a reloaded configuration produces while loggers in flight still hold the old one) write alternately; after every acknowledged append the file is exactly all acknowledged records, whole and in order. Further inputs (rounds 10-12): the appender may be built by the rolling_file deserializer (append left out when it is the default); records may lack a trailing line break; in the background-rotation build a panic of the library's rotation thread is a violation. non-trivial = >= 2 rotations and (a restart between them, or a record larger than the limit or 1 KiB, or a burst)".into(),
         assumptions: vec!["OS scheduler not controlled (bursts are real threads)".into(), "restarts in append mode only (statement's scope)".into()],
         mutants_caught: vec![],
     }
